@@ -251,8 +251,8 @@ def yaml_driver_part(ctx):
     if ctx.quick:
         keep = ctx.rng.sample(names, 3)
         cfg["simulations"] = {n: cfg["simulations"][n] for n in names if n in keep}
-    for sim in cfg["simulations"].values():
-        sim["title"] = "verif_yaml_" + str(os.getpid()) + "_" + "".join(ch for ch in sim["title"] if ch.isalnum())
+    for nm_, sim in cfg["simulations"].items():   # unique titles (the shipped file repeats some): results are matched to simulations by title
+        sim["title"] = "verif_yaml_" + str(os.getpid()) + "_" + "".join(ch for ch in nm_ if ch.isalnum())
     got = []
     orig = ScenarioRunnerNoTrade.run_model_no_trade
 
